@@ -108,6 +108,16 @@ func main() {
 		r.Set("deep_tree_nodes", nodes)
 		r.Set("deep_tree_calls", calls)
 	}
+	// Clear and reuse at sizes up to 20000 (on both comparator kinds: NewTree is whatever the last pass set)
+	for _, n := range ev.Pick(r, []int{3, 100, 8192, 20000}, []int{3, 100, 8192, 20000, 70000, 300000}) {
+		var tr func(any)
+		if ev.Tracing() {
+			tr = ev.Trace
+		}
+		if _, msg := avlh.ClearReuse(n, true, tr); msg != "" {
+			r.Report(ev.Violation{Sig: "family|clear-reuse", Msg: msg, Replay: map[string]any{"family": "clear-reuse", "n": n}})
+		}
+	}
 	r.Set("churn_family_operations", 2*ev.Pick(r, 140000, 600000))
 	r.Set("states", states)
 	r.Set("transitions", trans)
